@@ -1,10 +1,430 @@
-//! C09 — not built yet.
+//! C09 Served data set is the documented composition of validated payload.
+//!
+//! Validated payload is injected through routinator's own `ValidationReport` processing interface
+//! (`process_ta` / `process_roa` / `process_aspa` / `process_router_cert` / `commit` / `cancel`) with
+//! real, signed-and-decoded object content; `into_snapshot` with generated SLURM exceptions then
+//! produces the served set, which is compared with set algebra written from the manual.
+
+use std::collections::{BTreeMap, BTreeSet};
+use std::net::{IpAddr, Ipv4Addr, Ipv6Addr};
+
+use proptest::prelude::*;
+use routinator::config::Config;
+use routinator::engine::{CaCert, ProcessPubPoint, ProcessRun};
+use routinator::metrics::{Metrics, TalMetrics};
+use routinator::payload::ValidationReport;
+use routinator::slurm::LocalExceptions;
+use rpki::repository::cert::Cert;
+use rpki::repository::tal::{TalInfo, TalUri};
+use serde::{Deserialize, Serialize};
 
 use crate::core::*;
+use crate::erpki::{addr_range, policy};
+use crate::fmtx::Kit;
+use crate::pay::*;
+use crate::rpkigen::{self as gen, Res};
 
-pub const IMPLEMENTED: bool = false;
+#[derive(Serialize, Deserialize, Clone, Debug)]
+pub struct Point {
+    pub origins: Vec<MOrigin>,
+    pub aspas: Vec<MAspa>,
+    /// router certificates: (ec key index, ASNs)
+    pub routers: Vec<(usize, Vec<u32>)>,
+    /// if set, the point is rejected (contributes nothing) and these are its CA's resources
+    pub rejected: Option<Res>,
+}
 
-pub fn run(_ctx: &Ctx, _rep: &mut Report, _replay: Option<&serde_json::Value>) {
-    eprintln!("C09: check not implemented");
-    std::process::exit(2);
+#[derive(Serialize, Deserialize, Clone, Debug)]
+pub struct Case {
+    pub limit_v4: Option<u8>,
+    pub limit_v6: Option<u8>,
+    pub unsafe_vrps: u8,
+    pub bgpsec: bool,
+    pub aspa: bool,
+    pub points: Vec<Point>,
+    /// SLURM prefix filters (prefix, asn)
+    pub filters: Vec<(Option<(IpAddr, u8)>, Option<u32>)>,
+    /// SLURM BGPsec filters (ski of ec key index, asn)
+    pub key_filters: Vec<(Option<usize>, Option<u32>)>,
+    pub assert_origins: Vec<MOrigin>,
+    pub assert_keys: Vec<MKey>,
+    /// size of the provider union of the directed big-ASPA group (0 = none): several ASPA objects for
+    /// customer 65500 whose union has exactly this many providers
+    pub big_aspa_union: u32,
+    /// how the big group is split: number of overlapping parts (2..=5), rotation of their processing
+    /// order, and whether a small ASPA for the same customer is processed at the very end
+    #[serde(default)]
+    pub big_parts: u8,
+    #[serde(default)]
+    pub big_rotate: u8,
+    #[serde(default)]
+    pub big_tail_small: bool,
+}
+
+fn ec_key(idx: usize) -> MKey {
+    let pk = &gen::signer().ec_pub[idx % gen::N_EC_KEYS];
+    let mut ski = [0u8; 20];
+    ski.copy_from_slice(pk.key_identifier().as_ref());
+    MKey { ski, asn: 0, info: pk.to_info_bytes().to_vec() }
+}
+
+fn prefix_pool() -> Vec<(IpAddr, u8)> {
+    let mut v = Vec::new();
+    for (a, l) in [(0x0A00_0000u32, 8u8), (0x0A01_0000, 16), (0x0A01_0100, 24), (0x0A01_0180, 25), (0x0A01_0200, 23), (0x0A02_0000, 15), (0xC000_0200, 24), (0x0A01_0101, 32)] {
+        v.push((IpAddr::V4(Ipv4Addr::from(a)), l));
+    }
+    for (a, l) in [(0x2001_0db8_0000_0000u64, 32u8), (0x2001_0db8_0001_0000, 48), (0x2001_0db8_0001_0001, 64), (0x2001_0db8_0002_0000, 47)] {
+        v.push((IpAddr::V6(Ipv6Addr::from((a as u128) << 64)), l));
+    }
+    v
+}
+
+fn origin_strategy() -> impl Strategy<Value = MOrigin> {
+    (prop::sample::select(prefix_pool()), prop::sample::select(vec![0u8, 0, 1, 8, 200]), prop::sample::select(vec![64496u32, 64497, 0])).prop_map(|((a, l), d, asn)| {
+        let fam = if a.is_ipv4() { 32 } else { 128 };
+        MOrigin::new(a, l, Some(l.saturating_add(d).min(fam)), asn)
+    })
+}
+
+fn res_strategy() -> impl Strategy<Value = Res> {
+    (prop::collection::vec(prop::sample::select(prefix_pool()), 1..=3), any::<bool>()).prop_map(|(ps, zero)| {
+        let mut res = Res { v4: vec![], v6: vec![], asn: vec![] };
+        for (a, l) in ps {
+            match a {
+                IpAddr::V4(a) => res.v4.push((a, l)),
+                IpAddr::V6(a) => res.v6.push((a, l)),
+            }
+        }
+        if zero {
+            // a whole-family block never makes anything unsafe
+            res.v4 = vec![(Ipv4Addr::new(0, 0, 0, 0), 0)];
+        }
+        res
+    })
+}
+
+fn point_strategy() -> impl Strategy<Value = Point> {
+    (
+        prop::collection::vec(origin_strategy(), 0..=6),
+        prop::collection::vec((prop::sample::select(vec![65001u32, 65002]), prop::collection::btree_set(prop::sample::select(vec![1u32, 2, 3, 4, 5]), 1..=3)), 0..=2),
+        prop::collection::vec((0usize..2, prop::collection::btree_set(prop::sample::select(vec![64496u32, 64497, 64498]), 1..=3)), 0..=2),
+        prop::option::weighted(0.25, res_strategy()),
+    )
+        .prop_map(|(origins, aspas, routers, rejected)| Point {
+            origins,
+            aspas: aspas.into_iter().map(|(c, p)| MAspa::new(c, p)).collect(),
+            routers: routers.into_iter().map(|(k, a)| (k, a.into_iter().collect())).collect(),
+            rejected,
+        })
+}
+
+fn case_strategy() -> impl Strategy<Value = Case> {
+    (
+        (prop::sample::select(vec![None, None, Some(24u8), Some(23), Some(25), Some(8)]), prop::sample::select(vec![None, None, Some(48u8), Some(47), Some(64)]), prop::sample::select(vec![0u8, 0, 1, 2]), any::<bool>(), any::<bool>()),
+        prop::collection::vec(point_strategy(), 1..=4),
+        prop::collection::vec((prop::option::weighted(0.7, prop::sample::select(prefix_pool())), prop::option::weighted(0.5, prop::sample::select(vec![64496u32, 64497, 0]))), 0..=3),
+        prop::collection::vec((prop::option::weighted(0.6, 0usize..2), prop::option::weighted(0.6, prop::sample::select(vec![64496u32, 64497]))), 0..=2),
+        prop::collection::vec(origin_strategy(), 0..=3),
+        prop::collection::vec((0usize..3, prop::sample::select(vec![64496u32, 64499])), 0..=2),
+        (prop::sample::select(vec![0u32, 0, 0, 0, 0, 0, 0, 0, 0, 0, 0, 0, 0, 0, 0, 0, 0, 0, 0, 0, 0, 0, 0, 0, 16379, 16380, 16381, 16381, 20000, 33000]), 2u8..=5, 0u8..5, any::<bool>()),
+    )
+        .prop_map(|((limit_v4, limit_v6, unsafe_vrps, bgpsec, aspa), points, filters, key_filters, assert_origins, assert_keys, (big, big_parts, big_rotate, big_tail_small))| Case {
+            limit_v4,
+            limit_v6,
+            unsafe_vrps,
+            bgpsec,
+            aspa,
+            points,
+            filters,
+            key_filters,
+            assert_origins,
+            assert_keys: assert_keys.into_iter().map(|(k, asn)| MKey { asn, ..ec_key(k) }).collect(),
+            big_aspa_union: big,
+            big_parts,
+            big_rotate,
+            big_tail_small,
+        })
+}
+
+fn slurm(case: &Case) -> String {
+    use serde_json::json;
+    let pf: Vec<_> = case
+        .filters
+        .iter()
+        .map(|(p, a)| {
+            let mut o = serde_json::Map::new();
+            if let Some((addr, len)) = p {
+                o.insert("prefix".into(), json!(format!("{}/{}", addr, len)));
+            }
+            if let Some(a) = a {
+                o.insert("asn".into(), json!(a));
+            }
+            o.insert("comment".into(), json!("filter"));
+            serde_json::Value::Object(o)
+        })
+        .collect();
+    let kf: Vec<_> = case
+        .key_filters
+        .iter()
+        .map(|(k, a)| {
+            let mut o = serde_json::Map::new();
+            if let Some(k) = k {
+                o.insert("SKI".into(), json!(rpki::util::base64::Slurm.encode(&ec_key(*k).ski)));
+            }
+            if let Some(a) = a {
+                o.insert("asn".into(), json!(a));
+            }
+            serde_json::Value::Object(o)
+        })
+        .collect();
+    let pa: Vec<_> = case.assert_origins.iter().map(|o| json!({"asn": o.asn, "prefix": format!("{}/{}", o.addr, o.len), "maxPrefixLength": o.max_len, "comment": "assertion"})).collect();
+    let ka: Vec<_> = case.assert_keys.iter().map(|k| json!({"asn": k.asn, "SKI": rpki::util::base64::Slurm.encode(&k.ski), "routerPublicKey": rpki::util::base64::Slurm.encode(&k.info)})).collect();
+    json!({"slurmVersion": 1, "validationOutputFilters": {"prefixFilters": pf, "bgpsecFilters": kf}, "locallyAddedAssertions": {"prefixAssertions": pa, "bgpsecAssertions": ka}}).to_string()
+}
+
+/// The ASPA objects of the big group in processing order: `parts` overlapping windows over n
+/// providers (each window well below the limit on its own when parts >= 2), rotated, optionally
+/// followed by a small ASPA (providers inside the union) for the same customer.
+fn big_aspas(case: &Case) -> Vec<MAspa> {
+    let n = case.big_aspa_union as usize;
+    if n == 0 {
+        return vec![];
+    }
+    // every single object stays well below the per-object limit of the ASPA decoder
+    let parts = (case.big_parts as usize).clamp(2, 5).max(n.div_ceil(9000));
+    let all: Vec<u32> = (0..n as u32).map(|i| 100_000 + i).collect();
+    let step = n.div_ceil(parts);
+    let mut res: Vec<MAspa> = (0..parts)
+        .map(|p| {
+            let lo = (p * step).saturating_sub(step / 3);
+            let hi = ((p + 1) * step).min(n);
+            MAspa::new(65500, all[lo.min(n)..hi].iter().cloned())
+        })
+        .collect();
+    res.rotate_left(case.big_rotate as usize % parts);
+    if case.big_tail_small {
+        res.push(MAspa::new(65500, all[..5.min(n)].iter().cloned()));
+    }
+    res
+}
+
+struct Model {
+    set: MSet,
+    ops: BTreeSet<&'static str>,
+}
+
+fn covers(fp: (IpAddr, u8), o: &MOrigin) -> bool {
+    if fp.0.is_ipv4() != o.is_v4() || fp.1 > o.len {
+        return false;
+    }
+    mask(o.addr, fp.1) == mask(fp.0, fp.1)
+}
+
+fn model(case: &Case) -> Model {
+    let mut ops = BTreeSet::new();
+    let mut set = MSet::default();
+    // rejected blocks
+    let mut blocks: Vec<(bool, u128, u128)> = Vec::new();
+    for p in &case.points {
+        if let Some(res) = &p.rejected {
+            for (a, l) in &res.v4 {
+                if *l > 0 {
+                    let (lo, hi) = addr_range((u32::from(*a) as u128) << 96, *l, true);
+                    blocks.push((true, lo, hi));
+                }
+            }
+            for (a, l) in &res.v6 {
+                if *l > 0 {
+                    let (lo, hi) = addr_range(u128::from(*a), *l, false);
+                    blocks.push((false, lo, hi));
+                }
+            }
+        }
+    }
+    let mut aspas: BTreeMap<u32, BTreeSet<u32>> = BTreeMap::new();
+    let mut seen_origins = 0usize;
+    let mut points: Vec<Point> = case.points.clone();
+    for a in big_aspas(case) {
+        points.push(Point { origins: vec![], aspas: vec![a], routers: vec![], rejected: None });
+    }
+    for p in &points {
+        if p.rejected.is_some() {
+            continue;
+        }
+        for o in &p.origins {
+            let limit = if o.is_v4() { case.limit_v4 } else { case.limit_v6 };
+            if limit.map(|l| o.len > l).unwrap_or(false) {
+                ops.insert("length_limit");
+                continue;
+            }
+            let (lo, hi) = addr_range(o.bits(), o.len, o.is_v4());
+            if case.unsafe_vrps == 0 && blocks.iter().any(|(v4, blo, bhi)| *v4 == o.is_v4() && lo <= *bhi && *blo <= hi) {
+                ops.insert("unsafe_reject");
+                continue;
+            }
+            if case.filters.iter().any(|(fp, fa)| match (fp, fa) {
+                (Some(fp), Some(fa)) => covers(*fp, o) && *fa == o.asn,
+                (Some(fp), None) => covers(*fp, o),
+                (None, Some(fa)) => *fa == o.asn,
+                (None, None) => false,
+            }) {
+                ops.insert("slurm_filter");
+                continue;
+            }
+            seen_origins += 1;
+            set.origins.insert(o.clone());
+        }
+        if case.bgpsec {
+            for (k, asns) in &p.routers {
+                for asn in asns {
+                    let key = MKey { asn: *asn, ..ec_key(*k) };
+                    let dropped = case.key_filters.iter().any(|(fk, fa)| match (fk, fa) {
+                        (Some(fk), Some(fa)) => ec_key(*fk).ski == key.ski && *fa == key.asn,
+                        (Some(fk), None) => ec_key(*fk).ski == key.ski,
+                        (None, Some(fa)) => *fa == key.asn,
+                        (None, None) => false,
+                    });
+                    if dropped {
+                        ops.insert("bgpsec_filter");
+                    } else {
+                        set.keys.insert(key);
+                    }
+                }
+            }
+        } else if !p.routers.is_empty() {
+            ops.insert("bgpsec_disabled");
+        }
+        if case.aspa {
+            for a in &p.aspas {
+                let e = aspas.entry(a.customer).or_default();
+                if !e.is_empty() {
+                    ops.insert("aspa_union");
+                }
+                e.extend(a.providers.iter().cloned());
+            }
+        } else if !p.aspas.is_empty() {
+            ops.insert("aspa_disabled");
+        }
+    }
+    if seen_origins > set.origins.len() {
+        ops.insert("duplicate_merged");
+    }
+    for (c, p) in aspas {
+        if p.len() > 16380 {
+            ops.insert("aspa_too_large");
+            continue;
+        }
+        set.aspas.insert(c, p.into_iter().collect());
+    }
+    for o in &case.assert_origins {
+        ops.insert("assertion");
+        set.origins.insert(o.clone());
+    }
+    for k in &case.assert_keys {
+        ops.insert("assertion");
+        set.keys.insert(k.clone());
+    }
+    Model { set, ops }
+}
+
+thread_local! {
+    static KIT: Kit = Kit::new();
+}
+
+fn ca_for(res: &Res, idx: usize) -> std::sync::Arc<CaCert> {
+    let now = rpki::repository::x509::Time::now();
+    let dir = rpki::uri::Rsync::from_string(format!("rsync://c09.rpki.test/repo/p{}/", idx)).unwrap();
+    let mft = dir.join(b"p.mft").unwrap();
+    let bytes = gen::issue_ta(idx % gen::N_CA_KEYS, res, gen::validity(now, -86400, 86400 * 30), &dir, &mft, None, 1);
+    let cert = Cert::decode(bytes).expect("decode").validate_ta(TalInfo::from_name(format!("tal{}", idx)).into_arc(), false).expect("validate_ta");
+    CaCert::root(cert, TalUri::from_string(format!("rsync://c09.rpki.test/repo/ta{}.cer", idx)).unwrap(), idx).expect("root")
+}
+
+fn prop(case: &Case, info: &mut CaseInfo) -> Verdict {
+    let m = model(case);
+    info.nontrivial = m.ops.len() >= 2;
+    for o in &m.ops {
+        info.class(*o);
+    }
+    info.class(format!("unsafe_policy_{}", case.unsafe_vrps));
+    let dir = tempfile::tempdir_in(crate::erun::scratch_base()).expect("tmp");
+    let mut config = Config::default_with_paths(dir.path().join("r.conf"), dir.path().join("cache"));
+    config.limit_v4_len = case.limit_v4;
+    config.limit_v6_len = case.limit_v6;
+    config.unsafe_vrps = policy(case.unsafe_vrps);
+    config.enable_bgpsec = case.bgpsec;
+    config.enable_aspa = case.aspa;
+    let exceptions = match LocalExceptions::from_json(&slurm(case), true) {
+        Ok(e) => e,
+        Err(e) => panic!("harness SLURM does not parse: {}", e),
+    };
+    let served = KIT.with(|kit| {
+        let report = ValidationReport::new(&config);
+        let mut metrics = Metrics::new();
+        let mut points: Vec<Point> = case.points.clone();
+        for a in big_aspas(case) {
+            points.push(Point { origins: vec![], aspas: vec![a], routers: vec![], rejected: None });
+        }
+        let whole = Res { v4: vec![(Ipv4Addr::new(0, 0, 0, 0), 0)], v6: vec![(Ipv6Addr::from(0u128), 0)], asn: vec![(0, u32::MAX)] };
+        for (idx, p) in points.iter().enumerate() {
+            metrics.tals.push(TalMetrics::new(TalInfo::from_name(format!("tal{}", idx)).into_arc()));
+            let ca = ca_for(p.rejected.as_ref().unwrap_or(&whole), idx);
+            let mut proc = (&report).process_ta(&kit.tal, &kit.ta_uri, &ca, idx).expect("process_ta").expect("processor");
+            let ee = kit.resource_cert(&format!("tal{}", idx));
+            let uri = rpki::uri::Rsync::from_string(format!("rsync://c09.rpki.test/repo/p{}/o", idx)).unwrap();
+            // a rejected point may have processed objects before it was rejected
+            for att in kit.roa_atts(&p.origins) {
+                proc.process_roa(&uri, ee.clone(), att).expect("process_roa");
+            }
+            for a in &p.aspas {
+                proc.process_aspa(&uri, ee.clone(), kit.aspa_att(a)).expect("process_aspa");
+            }
+            for (k, asns) in &p.routers {
+                let issuer = gen::Issuer { key: idx % gen::N_CA_KEYS, cert_uri: uri.clone(), crl_uri: uri.clone() };
+                let ranges: Vec<(u32, u32)> = asns.iter().map(|a| (*a, *a)).collect();
+                let now = rpki::repository::x509::Time::now();
+                let bytes = gen::issue_router_cert(&issuer, *k, &ranges, gen::validity(now, -3600, 86400), 77, true);
+                let cert = Cert::decode(bytes).expect("router cert decodes");
+                proc.process_router_cert(&uri, cert, &ca).expect("process_router_cert");
+            }
+            if p.rejected.is_some() {
+                proc.cancel(&ca);
+            } else {
+                proc.commit();
+            }
+        }
+        let snapshot = report.into_snapshot(&exceptions, &mut metrics);
+        MSet::from_snapshot(&snapshot)
+    });
+    let served = match served {
+        Ok(s) => s,
+        Err(e) => return Verdict::fail("C09/item-listed-twice", e),
+    };
+    if served.origins != m.set.origins {
+        let extra: Vec<_> = served.origins.difference(&m.set.origins).take(3).collect();
+        let missing: Vec<_> = m.set.origins.difference(&served.origins).take(3).collect();
+        let key = if !extra.is_empty() { "C09/origin-not-in-composition" } else { "C09/origin-missing-from-composition" };
+        return Verdict::fail(key, format!("served-but-not-expected {:?}; expected-but-not-served {:?}; operators in play {:?}", extra, missing, m.ops));
+    }
+    if served.keys != m.set.keys {
+        let extra: Vec<_> = served.keys.difference(&m.set.keys).map(|k| k.asn).collect();
+        let missing: Vec<_> = m.set.keys.difference(&served.keys).map(|k| k.asn).collect();
+        return Verdict::fail("C09/router-keys-differ", format!("extra key ASNs {:?} missing key ASNs {:?} bgpsec={} ops {:?}", extra, missing, case.bgpsec, m.ops));
+    }
+    if served.aspas != m.set.aspas {
+        let summary = |s: &BTreeMap<u32, Vec<u32>>| s.iter().map(|(c, p)| (*c, p.len())).collect::<Vec<_>>();
+        return Verdict::fail("C09/aspas-differ", format!("served (customer, #providers) {:?} expected {:?} aspa={} ops {:?}", summary(&served.aspas), summary(&m.set.aspas), case.aspa, m.ops));
+    }
+    Verdict::Pass
+}
+
+pub fn run(ctx: &Ctx, rep: &mut Report, replay: Option<&serde_json::Value>) {
+    rep.rule("validated payload injected through routinator's own ValidationReport interface: 1-4 publication points (one TAL each) with ROA content drawn from a small pool of related prefixes (so duplicates across points/TALs, covering/covered relations and lengths at limit-1/limit/limit+1 are common), ASPAs for 2 customers with overlapping provider sets, router certificates (real, issued and decoded) with 1-3 ASNs; 25% of points are rejected with generated resource blocks (sometimes only 0.0.0.0/0); SLURM prefix filters (prefix and/or ASN), BGPsec filters (SKI and/or ASN), prefix and BGPsec assertions; limit-v4/v6-len, unsafe-vrps, enable-bgpsec/aspa varied; 1 in 5 cases adds a group of 2-5 overlapping ASPA objects for one customer (processing order rotated, optionally followed by a small ASPA for the same customer) whose provider union is 16379/16380/16381/20000/33000; oracle = set algebra from the manual (validated - too long - unsafe(reject) - SLURM-filtered + assertions, each distinct item once; ASPA union per customer, dropped above 16380); non-trivial = >=2 operators act in the case; distinct by serialised case");
+    rep.assume("object content comes from signed-and-decoded ROAs/ASPAs/router certificates; certificate-level validation is the subject of C01/C02, not of this check");
+    if let Some(v) = replay {
+        let t: Tagged<Case> = serde_json::from_value(v.clone()).expect("replay");
+        run_case(ctx, rep, &t.sub, &t.case, prop);
+        return;
+    }
+    run_prop(ctx, rep, "compose", ctx.tier.pick(2500, 60_000), case_strategy(), prop);
 }
